@@ -111,6 +111,10 @@ Section JwsJson.
   Lemma jstr_general pl items :
     jstr [(n_payload, MStr pl); (n_signatures, MArr items)] n_payload = Some pl.
   Proof. reflexivity. Qed.
+  Lemma jstr_general_none pl items :
+    jstr [(n_payload, MStr pl); (n_signatures, MArr items)] n_protected = None /\
+    jstr [(n_payload, MStr pl); (n_signatures, MArr items)] n_signature = None.
+  Proof. split; reflexivity. Qed.
   Lemma jarr_general pl items :
     jarr [(n_payload, MStr pl); (n_signatures, MArr items)] n_signatures = items.
   Proof. reflexivity. Qed.
@@ -131,9 +135,12 @@ Section JwsJson.
       pose proof (parse_entry s1 (Ws s1 (or_introl eq_refl))) as P.
       destruct s1 as [p ph h sg]. unfold sig_members in *. cbn [se_prot se_ph se_hdr se_sig] in *.
       destruct p as [|p0 p]; destruct h as [h|]; cbn [is_nil negb opt_member app map lift_leaf] in *; cbn in *.
-      all: rewrite (decode_member_enc _ Wl); cbn [bind]; rewrite P; reflexivity.
+      all: destruct (Ws _ (or_introl eq_refl)) as (Wp1 & Ws1 & _); cbn [se_prot se_sig] in Wp1, Ws1.
+      all: rewrite (decode_member_enc _ Wl); cbn [bind]; try rewrite (decode_member_enc _ Wp1); try rewrite decode_member_none;
+        cbn [bind]; rewrite (decode_member_enc _ Ws1); cbn [bind]; rewrite P; reflexivity.
     - (* general *)
-      rewrite jstr_general, (decode_member_enc _ Wl). cbn [bind]. rewrite jarr_general.
+      destruct (jstr_general_none (b64url_encode pl) (map sig_members (s1 :: s2 :: rest))) as [N1 N2].
+      rewrite jstr_general, (decode_member_enc _ Wl), N1, N2, decode_member_none. cbn [bind]. rewrite jarr_general.
       cbn [map]. change (sig_members s1 :: sig_members s2 :: map sig_members rest) with (map sig_members (s1 :: s2 :: rest)).
       rewrite (map_res_map sig_members _ view_sig) by (intros x Hx; apply parse_entry, Ws, Hx).
       reflexivity.
@@ -248,7 +255,8 @@ Section JweJson.
     let o := {| eo_prot := p0 :: p; eo_ph := ph; eo_unprot := u; eo_recips := r1 :: r2 :: rest; eo_aad := a;
                 eo_iv := iv; eo_ct := ct; eo_tag := tag |} in
     jarr (jwe_full o) n_recipients = map recip_members (r1 :: r2 :: rest) /\ jhdr (jwe_full o) n_header = None /\
-    jstr (jwe_full o) n_aad = key_member a /\ jhdr (jwe_full o) n_unprotected = u.
+    jstr (jwe_full o) n_aad = key_member a /\ jhdr (jwe_full o) n_unprotected = u /\
+    jstr (jwe_full o) n_encrypted_key = key_member (rc_key r1).
   Proof.
     cbn zeta. unfold jwe_full, key_member.
     cbn [eo_prot eo_unprot eo_recips eo_aad eo_iv eo_ct eo_tag is_nil negb opt_member].
@@ -285,8 +293,9 @@ Section JweJson.
       rewrite M1, M3, M4, M5, F1, F2, F3, F4, F5, Hnu, (decode_key_member a Wa). destruct (Wr _ (or_introl eq_refl)) as [Wk Hnr]. cbn [rc_hdr rc_key] in *. rewrite Hnr.
       rewrite (decode_member_enc _ Wp), (decode_member_enc _ Wi), (decode_member_enc _ Wc), (decode_member_enc _ Wt).
       cbn [orb bind is_nil]. rewrite Hd. cbn [bind]. rewrite (decode_key_member _ Wk). cbn [bind]. rewrite Hok. cbn [negb bind]. reflexivity.
-    - destruct (jwe_members_general p0 p ph u r1 r2 rest a iv ct tag) as (G1 & G2 & G3 & G4). cbn zeta in *.
-      rewrite M1, M3, M4, M5, G1, G2, G3, G4, Hnu, (decode_key_member a Wa), has_nonce_none.
+    - destruct (jwe_members_general p0 p ph u r1 r2 rest a iv ct tag) as (G1 & G2 & G3 & G4 & G5). cbn zeta in *.
+      destruct (Wr r1 (or_introl eq_refl)) as [Wk1 _].
+      rewrite M1, M3, M4, M5, G1, G2, G3, G4, G5, (decode_key_member _ Wk1), Hnu, (decode_key_member a Wa), has_nonce_none.
       rewrite (decode_member_enc _ Wp), (decode_member_enc _ Wi), (decode_member_enc _ Wc), (decode_member_enc _ Wt).
       cbn [orb bind is_nil]. rewrite Hd. cbn [bind map].
       change (recip_members r1 :: recip_members r2 :: map recip_members rest) with (map recip_members (r1 :: r2 :: rest)).
